@@ -83,12 +83,15 @@ def setup():
     _ENV["expected_decompose"] = exp
     _ENV["registry0"] = _registry_snapshot()
     # warm the primitives in the main thread (no simulated threads before the runner forks)
-    for _ in range(3):
-        with qp.decomposition.local_decomps():
-            qp.add_decomps("SWAP", markers[-1])
-            dr._fix_decomp("CSWAP", markers[-2])
-            qp.list_decomps("SWAP"), dr.get_fixed_decomp("CSWAP"), qp.decomposition.has_decomp("SWAP")
-            _decompose(1, None)
+    try:
+        for _ in range(3):
+            with qp.decomposition.local_decomps():
+                qp.add_decomps("SWAP", markers[-1])
+                dr._fix_decomp("CSWAP", markers[-2])
+                qp.list_decomps("SWAP"), dr.get_fixed_decomp("CSWAP"), qp.decomposition.has_decomp("SWAP")
+                _decompose(1, None)
+    except Exception:  # noqa: BLE001 - warm-up only; the search itself reports what is wrong
+        pass
     _ENV["ready"] = True
 
 
